@@ -27,6 +27,7 @@ type Env struct {
 	info   *types.Info
 	inOld  bool
 	result *SVal
+	callSite bool
 }
 
 // contractEnv builds the environment for evaluating ct's clauses. args are
@@ -407,6 +408,10 @@ func (env *Env) tr(x ast.Expr) *SVal {
 			if sl, ok := xv.Typ.Underlying().(*types.Slice); ok {
 				et = sl.Elem()
 			}
+			if xv.K == KString {
+				smem := e.get(env.state(), "mem:str", Arr(RefS, Arr(BV64, BV8)))
+				return &SVal{K: KScalar, Typ: types.Typ[types.Uint8], T: c.Select(c.Select(smem, xv.Base), c.BVBin("bvadd", xv.Off, i))}
+			}
 			a := e.elemAddr(xv.Base, c.BVBin("bvadd", xv.Off, i), et)
 			return e.load(env.state(), a)
 		case KArray:
@@ -784,6 +789,13 @@ func (env *Env) call(n *ast.CallExpr) *SVal {
 			v := env.tr(n.Args[0])
 			env.inOld = saved
 			return v
+		case "now":
+			// inside old(...): evaluate the argument in the current (post) state
+			saved := env.inOld
+			env.inOld = false
+			v := env.tr(n.Args[0])
+			env.inOld = saved
+			return v
 		case "implies":
 			return env.mkBool(c.Implies(env.tr(n.Args[0]).T, env.tr(n.Args[1]).T))
 		case "ite":
@@ -818,6 +830,9 @@ func (env *Env) call(n *ast.CallExpr) *SVal {
 				return env.mkBool(c.Or(parts...))
 			}
 			if id.Name == "forall" {
+				if pat := findSelectAt(body, bv); pat != nil {
+					return env.mkBool(c.ForallPat([]*Term{bv}, c.Implies(rng, body), pat))
+				}
 				return env.mkBool(c.Forall([]*Term{bv}, c.Implies(rng, body)))
 			}
 			return env.mkBool(c.Exists([]*Term{bv}, c.And(rng, body)))
@@ -977,8 +992,8 @@ func (env *Env) isNil(v *SVal) *Term {
 func (env *Env) sameBytes(s, t *SVal, lo, cnt *Term) *Term {
 	e := env.e
 	c := e.c
-	mem := e.get(env.state(), "mem:bv8", Arr(RefS, Arr(BV64, BV8)))
-	sa, ta := c.Select(mem, s.Base), c.Select(mem, t.Base)
+	sa := c.Select(e.get(env.state(), byteClass(s), Arr(RefS, Arr(BV64, BV8))), s.Base)
+	ta := c.Select(e.get(env.state(), byteClass(t), Arr(RefS, Arr(BV64, BV8))), t.Base)
 	hdr := c.And(c.Eq(s.Len, cnt), c.BVCmp("bvsle", c.BVLit(0, 64), lo), c.BVCmp("bvsle", c.BVBin("bvadd", lo, cnt), t.Len))
 	if cnt.IsLit() && cnt.V <= 32 {
 		var parts []*Term
@@ -1018,11 +1033,8 @@ func (env *Env) convert(v *SVal, from, to types.Type) *SVal {
 	if kindOf(from) == kindOf(to) {
 		return e.changeType(v, to)
 	}
-	if kindOf(from) == KString && kindOf(to) == KSlice {
-		return &SVal{K: KSlice, Typ: to, Base: v.Base, Off: v.Off, Len: v.Len, Cap: v.Len}
-	}
-	if kindOf(from) == KSlice && kindOf(to) == KString {
-		return &SVal{K: KString, Typ: to, Base: v.Base, Off: v.Off, Len: v.Len}
+	if (kindOf(from) == KString && kindOf(to) == KSlice) || (kindOf(from) == KSlice && kindOf(to) == KString) {
+		env.fail(nil, "string/[]byte conversion in a contract: index the value directly instead")
 	}
 	env.fail(nil, "unsupported conversion %s -> %s", from, to)
 	return nil
@@ -1062,4 +1074,45 @@ var pureNative = map[string]bool{
 	"(time.Time).Unix": true, "(time.Time).Before": true, "(time.Time).After": true, "(time.Time).Equal": true,
 	"(time.Duration).Seconds": true, "(time.Duration).Minutes": true, "(time.Duration).Hours": true,
 	"math.Floor": true, "math.Ceil": true,
+}
+
+// findSelectAt finds a subterm select(A, v) whose index is exactly the bound
+// variable v (A not mentioning v): a good E-matching trigger.
+func findSelectAt(t, v *Term) *Term {
+	seen := map[*Term]bool{}
+	var found *Term
+	var rec func(x *Term)
+	rec = func(x *Term) {
+		if found != nil || seen[x] || !x.hb {
+			return
+		}
+		seen[x] = true
+		if x.Op == "select" && x.Args[1] == v && !mentions(x.Args[0], v) && patternSafe(x.Args[0]) {
+			found = x
+			return
+		}
+		for _, a := range x.Args {
+			rec(a)
+		}
+	}
+	rec(t)
+	return found
+}
+
+// patternSafe: solvers accept only function applications and variables in patterns.
+func patternSafe(t *Term) bool {
+	switch t.Op {
+	case "sym", "bound":
+		return true
+	case "select":
+		return patternSafe(t.Args[0]) && patternSafe(t.Args[1])
+	case "root", "sub", "idx", "nilref", "bv", "int":
+		for _, a := range t.Args {
+			if !patternSafe(a) {
+				return false
+			}
+		}
+		return true
+	}
+	return false
 }
